@@ -39,8 +39,18 @@ func (r *Response) Result() (any, error) {
 	}
 }
 
-func (r *Response) Send(_ *PID, msg any, _ *PID) {
-	r.result <- msg
+func (r *Response) Send(_ *PID, msg any, sender *PID) {
+	select {
+	case r.result <- msg:
+	default:
+		// Result() takes a single reply. A surplus one must not block its
+		// sender, which would be for good once Result() has returned.
+		r.engine.BroadcastEvent(DeadLetterEvent{
+			Target:  r.pid,
+			Message: msg,
+			Sender:  sender,
+		})
+	}
 }
 
 func (r *Response) PID() *PID         { return r.pid }
